@@ -113,6 +113,7 @@ pub fn make_token(r: &mut Rng, claims: &Value, marks: &[TPath], bound: bool, use
 }
 
 pub fn generate(thorough: bool, seed: u64, em: &mut Emitter) {
+    super::c06::generate_sibling_names(seed, em);
     let mut r = Rng::new(seed ^ 0xC02);
     let n = if thorough { 30_000 } else { 2_000 };
     for i in 0..n {
